@@ -388,8 +388,12 @@ template<typename A>
 auto cpc_compressor<A>::uncompress_surprising_values(const uint32_t* data, uint32_t data_words, uint32_t num_pairs,
     uint8_t lg_k, const A& allocator) const -> vector_u32 {
   const uint32_t k = 1 << lg_k;
-  vector_u32 pairs(num_pairs, 0, allocator);
   const uint8_t num_base_bits = golomb_choose_number_of_base_bits(k + num_pairs, num_pairs);
+  // each pair takes at least 2 + num_base_bits bits, see safe_length_for_compressed_pair_buf()
+  if (static_cast<uint64_t>(num_pairs) * (2 + num_base_bits) > static_cast<uint64_t>(data_words) * 32) {
+    throw std::invalid_argument("number of pairs does not match the size of compressed data");
+  }
+  vector_u32 pairs(num_pairs, 0, allocator);
   low_level_uncompress_pairs(pairs.data(), num_pairs, num_base_bits, data, data_words);
   return pairs;
 }
